@@ -4,6 +4,20 @@
 #include <stdio.h>
 #include <string.h>
 
+/* Appends at most the bytes that still fit before end; returns the new end
+ * of the text. */
+static char *
+append_bounded(char *dst, char *end, const char *src, size_t len)
+{
+    size_t room = (size_t)(end - dst);
+
+    if (len > room)
+        len = room;
+
+    memcpy(dst, src, len);
+    return dst + len;
+}
+
 void replace_substrings(char *buffer,
                         size_t maxsize,
                         const char *input,
@@ -16,29 +30,22 @@ void replace_substrings(char *buffer,
     const char *strit = input;
     const char *streit = input + inlen;
     char *bufit = buffer;
+    char *bufend;
 
-    if (sublen == 0)
-    {
-        size_t len = __MIN__(maxsize - 1, inlen);
-        memcpy(buffer, input, len);
-        buffer[len] = 0;
-    }
+    if (maxsize == 0)
+        return;
+
+    /* One byte is kept for the terminator; what does not fit is dropped. */
+    bufend = buffer + maxsize - 1;
 
     char *finded;
     while ((finded = igris_memmem(strit, streit - strit, sub, sublen)) != NULL)
     {
-        ptrdiff_t step = finded - strit;
-
-        memcpy(bufit, strit, step);
-        bufit += step;
-        strit += step;
-
-        memcpy(bufit, rep, replen);
-        bufit += replen;
-        strit += sublen;
+        bufit = append_bounded(bufit, bufend, strit, (size_t)(finded - strit));
+        bufit = append_bounded(bufit, bufend, rep, replen);
+        strit = finded + sublen;
     };
 
-    ptrdiff_t lastlen = streit - strit;
-    memcpy(bufit, strit, lastlen);
-    *(bufit + lastlen) = 0;
+    bufit = append_bounded(bufit, bufend, strit, (size_t)(streit - strit));
+    *bufit = 0;
 }
